@@ -1,6 +1,6 @@
 (* C06 - single-shot fits are the weighted least-squares optimum of their family *)
 From Coq Require Import QArith List Arith Bool.
-From TW Require Import GJModel LSQ Rscale Rscale2 Shift Recovery LinearFit Legacy Unique.
+From TW Require Import GJModel LSQ Rscale Rscale2 Shift Recovery LinearFit Legacy Unique UniqueSim.
 Import ListNotations.
 Open Scope Q_scope.
 
@@ -69,6 +69,15 @@ Theorem C06_general_unique : forall l, (forall z, In z l -> 0 <= pw z) -> forall
              (ssr l py c' <= ssr l py q -> qnth c' 0 == qnth q 0 /\ qnth c' 1 == qnth q 1 /\ qnth c' 2 == qnth q 2).
 Proof. exact general_fit_unique. Qed.
 Print Assumptions C06_general_unique.
+
+(* ... and for the similarity family when the centred cross determinant does not vanish (i.e. the data tell a
+   rotation from a reflection): any member doing as well as the fit has the fit's branch, matrix and shift *)
+Theorem C06_rscale_unique : forall l, 0 < sw l -> 0 < q2 l -> forall t, ~ detc l == 0 ->
+  ssr_sim l t <= ssr_sim l (model l) ->
+  sflip t = flip l /\ sa t == sa (model l) /\ sb_ t == sb_ (model l) /\
+  s1 t == s1 (model l) /\ s2 t == s2 (model l).
+Proof. exact rscale_unique. Qed.
+Print Assumptions C06_rscale_unique.
 
 (* non-vacuity and the special-angle inputs of finding F1: exact 45 degree x sqrt 2 lattice *)
 Definition lat45 : list pr :=
